@@ -28,7 +28,8 @@ RULE = ("every .py file under pyrex/ is parsed; every import of, and every attri
 ASSUMPTIONS = [
     "only the installed versions (numpy/scipy/h5py/python of /venv) are enumerated; other versions inside the "
     "declared range cannot be installed offline and are not claimed",
-    "names reached through instances (method calls on arrays etc.) are not resolved",
+    "names reached through instances (method calls on arrays etc.) are not resolved, except for a curated list of methods known to "
+    "have been removed (ndarray.ptp/itemset/newbyteorder/tostring, dict.iteritems ...), flagged by name",
     "a name rebound locally (parameter/assignment) shadows the module binding and is skipped",
 ]
 
@@ -198,6 +199,19 @@ class _Sites(ast.NodeVisitor):
         pass
 
 
+# Methods that existed on objects of the declared dependency range but are gone from the installed versions (numpy 2.x ndarray,
+# Python 3.9+/3.12 stdlib objects).  Instance attributes cannot be resolved statically in general; this curated list catches the
+# known removals by name wherever they are called on *any* object.
+REMOVED_INSTANCE_METHODS = {
+    "ptp": "ndarray.ptp (numpy 2.0; use np.ptp)", "itemset": "ndarray.itemset (numpy 2.0)",
+    "newbyteorder": "ndarray.newbyteorder (numpy 2.0)", "tostring": "ndarray.tostring / array.tostring (numpy 2.0 / py 3.9)",
+    "fromstring": "array.fromstring (py 3.9)", "getchildren": "xml Element.getchildren (py 3.9)",
+    "getiterator": "xml Element.getiterator (py 3.9)", "isAlive": "Thread.isAlive (py 3.9)",
+    "iteritems": "dict.iteritems (py 3)", "has_key": "dict.has_key (py 3)", "readfp": "ConfigParser.readfp (py 3.12)",
+    "assertEquals": "TestCase.assertEquals (py 3.12)",
+}
+
+
 _RESOLVE_CACHE = {}
 
 
@@ -290,6 +304,17 @@ def _static(case):
                           "what": "%s:%d references %s: %s" % (case["file"], lineno, ref, detail),
                           "tags": {"file": case["file"], "ref": ref, "group": ref},
                           "size": lineno})
+    defined_here = {n.name for n in ast.walk(tree) if isinstance(n, (ast.FunctionDef, ast.AsyncFunctionDef))}
+    for node in ast.walk(tree):
+        if isinstance(node, ast.Call) and isinstance(node.func, ast.Attribute) and node.func.attr in REMOVED_INSTANCE_METHODS \
+                and node.func.attr not in defined_here:
+            root = node.func.value
+            if isinstance(root, ast.Name) and root.id in v.bind:
+                continue        # module-level name: already resolved above
+            fails.append({"check": "removed-instance-method",
+                          "what": "%s:%d calls .%s() -- %s no longer exists" % (case["file"], node.lineno, node.func.attr,
+                                                                               REMOVED_INSTANCE_METHODS[node.func.attr]),
+                          "tags": {"file": case["file"], "ref": node.func.attr, "group": "method:" + node.func.attr}, "size": node.lineno})
     for gid, branches in groups.items():
         if any(all(ok for _, _, ok, _ in sites) for sites in branches.values()):
             guarded_unresolved += sum(1 for sites in branches.values() for s in sites if not s[2])
